@@ -24,7 +24,25 @@ Slice(x, a, b) == SubSeq(x, a + 1, b)      \* bytes a..b (0-based, b exclusive)
 
 
 Col(L, line, col) == col + (IF line = L.gcol THEN L.gco ELSE 0)
-Emit(L, x, line, col) == Append(L.out, [x |-> x, gl |-> line, gc |-> Col(L, line, col)])
+Emit(L, x, line, col, a) == Append(L.out, [x |-> x, gl |-> line, gc |-> Col(L, line, col), a |-> a])
+
+(* attribution (by value, SMap!SegAttr form) of the chunk in hand; a chunk   *)
+(* without the field is unmapped text                                       *)
+AttrOf(c) == IF "a" \in DOMAIN c THEN c.a ELSE Unmapped
+(* check_original_content: the recorded content of the chunk's file holds    *)
+(* `expected` at the chunk's original position                              *)
+ContentHas(a, expected) ==
+  /\ a.m
+  /\ LET ls == Lines(a.ct)
+     IN /\ a.l >= 1 /\ a.l <= Len(ls)
+        /\ IsPrefix(expected, SubSeq(ls[a.l], a.c + 1, Len(ls[a.l])))
+Advance(a, expected) == IF ContentHas(a, expected) THEN [a EXCEPT !.c = @ + Len(expected)] ELSE a
+(* what replacement content carries: the location active at its start, the  *)
+(* replacement's name (or the chunk's) on its first line only               *)
+ReplAttr(a, r, first) ==
+  IF ~a.m THEN Unmapped
+  ELSE IF ~first THEN [a EXCEPT !.hn = FALSE, !.n = <<>>]
+  ELSE IF r.n # <<>> THEN [a EXCEPT !.hn = TRUE, !.n = r.n[1]] ELSE a
 
 (* a chunk (or the rest of it) that lies inside a replaced region is skipped *)
 SkipRest(L, c, skipped) ==
@@ -37,12 +55,12 @@ SkipRest(L, c, skipped) ==
                       !.gcol = line]
 
 (* replacement content, one chunk per line                                  *)
-InsertLines(L, c, lines) ==
+InsertLines(L, c, lines, r) ==
   LET step(acc, k) ==
         LET A == acc[1]
             line == acc[2]
             cl == lines[k]
-            out == Emit(A, cl, line, A.mgc)
+            out == Emit(A, cl, line, A.mgc, ReplAttr(A.org, r, k = 1))
         IN IF k = Len(lines) /\ ~EndsNL(cl)
              THEN <<[A EXCEPT !.out = out,
                               !.gco = IF A.gcol = line THEN @ + Len(cl) ELSE Len(cl),
@@ -62,10 +80,11 @@ InChunk(L, c, repls, endPos) ==
         before == r.s > L.pos
         off == r.s - L.pos
         L1 == IF before
-                THEN [L EXCEPT !.out = Emit(L, Slice(c.x, L.cpos, L.cpos + off), line, L.mgc),
-                               !.mgc = @ + off, !.cpos = @ + off, !.pos = r.s]
+                THEN [L EXCEPT !.out = Emit(L, Slice(c.x, L.cpos, L.cpos + off), line, L.mgc, L.org),
+                               !.mgc = @ + off, !.cpos = @ + off, !.pos = r.s,
+                               !.org = Advance(@, Slice(c.x, L.cpos, L.cpos + off))]
                 ELSE L
-        L2 == InsertLines(L1, c, Lines(r.c))
+        L2 == InsertLines(L1, c, Lines(r.c), r)
         rend == IF L2.rend < 0 THEN r.e ELSE MaxN(L2.rend, r.e)
         L3 == [L2 EXCEPT !.rend = rend, !.i = @ + 1]
         skip == rend - L3.pos
@@ -76,15 +95,16 @@ InChunk(L, c, repls, endPos) ==
          LET line3 == c.gl + L3.glo
          IN InChunk([L3 EXCEPT !.cpos = @ + skip, !.pos = @ + skip, !.mgc = @ + skip,
                                !.gco = IF L3.gcol = line3 THEN @ - skip ELSE 0 - skip,
-                               !.gcol = line3],
+                               !.gcol = line3,
+                               !.org = Advance(@, Slice(c.x, L3.cpos, L3.cpos + skip))],
                     c, repls, endPos)
 
 ReplInit == [pos |-> 0, i |-> 1, rend |-> -1, glo |-> 0, gco |-> 0, gcol |-> 0, out |-> <<>>,
-             cpos |-> 0, mgc |-> 0, done |-> FALSE]
+             cpos |-> 0, mgc |-> 0, done |-> FALSE, org |-> Unmapped]
 
 OnChunk(L0, c, repls) ==
   LET endPos == L0.pos + Len(c.x)
-      L == [L0 EXCEPT !.cpos = 0, !.mgc = c.gc, !.done = FALSE]
+      L == [L0 EXCEPT !.cpos = 0, !.mgc = c.gc, !.done = FALSE, !.org = AttrOf(c)]
       inside == L.rend >= 0 /\ L.rend > L.pos
   IN IF inside /\ L.rend >= endPos
        THEN [SkipRest(L, c, Len(c.x)) EXCEPT !.pos = endPos]        \* skip over the whole chunk
@@ -94,12 +114,13 @@ OnChunk(L0, c, repls) ==
            La == IF inside
                    THEN [L EXCEPT !.cpos = part, !.pos = @ + part, !.mgc = @ + part,
                                   !.gco = IF L.gcol = line THEN @ - part ELSE 0 - part,
-                                  !.gcol = line]
+                                  !.gcol = line,
+                                  !.org = Advance(@, Slice(c.x, 0, part))]
                    ELSE L
            Lb == InChunk(La, c, repls, endPos)
        IN IF Lb.done THEN Lb
           ELSE IF Lb.cpos < Len(c.x)                                   \* emit remaining chunk
-            THEN [Lb EXCEPT !.out = Emit(Lb, Slice(c.x, Lb.cpos, Len(c.x)), c.gl + Lb.glo, Lb.mgc),
+            THEN [Lb EXCEPT !.out = Emit(Lb, Slice(c.x, Lb.cpos, Len(c.x)), c.gl + Lb.glo, Lb.mgc, Lb.org),
                             !.pos = endPos]
             ELSE [Lb EXCEPT !.pos = endPos]
 
@@ -113,7 +134,7 @@ ReplaceStream(chunks, innerEnd, repls) ==
         LET A == acc[1]
             line == acc[2]
             cl == lines[k]
-            out == Emit(A, cl, line, innerEnd[2])
+            out == Emit(A, cl, line, innerEnd[2], Unmapped)
         IN IF k = Len(lines) /\ ~EndsNL(cl)
              THEN <<[A EXCEPT !.out = out,
                               !.gco = IF A.gcol = line THEN @ + Len(cl) ELSE Len(cl),
